@@ -58,14 +58,15 @@ class LogProbe(logging.Handler):
         self._buf().append((record.name, record.levelname, msg))
         self.total += 1
         self._tls.n = getattr(self._tls, "n", 0) + 1
-        if record.levelno >= logging.WARNING and record.name == "chartparse.track":
+        if record.levelno >= logging.WARNING and (record.name == "chartparse" or record.name.startswith("chartparse.")):
             self._tls.nw = getattr(self._tls, "nw", 0) + 1
 
     def total_for_thread(self) -> int:
         return getattr(self._tls, "n", 0)
 
     def track_warnings_for_thread(self) -> int:
-        """records of level WARNING or above on logger chartparse.track emitted by this thread so far"""
+        """records of level WARNING or above on any logger of the chartparse tree emitted by this thread so far (which
+        module's logger carries a report is the implementation's choice)"""
         return getattr(self._tls, "nw", 0)
 
     def drain(self) -> list:
